@@ -74,7 +74,7 @@ type Known struct {
 var defaultBlackhole = []string{
 	"go.uber.org/zap", "github.com/prometheus/", "go.opencensus.io", repoMod + "/logger", repoMod + "/metric",
 	repoMod + "/tracing", "log", "runtime/debug", "runtime/pprof", "expvar", "os/signal", "go.uber.org/automaxprocs",
-	"go.opentelemetry.io", "runtime/trace",
+	"go.opentelemetry.io", "runtime", "github.com/KimMachineGun/automemlimit", "github.com/c2h5oh/datasize",
 }
 
 var defaultRedirect = map[string]string{
@@ -719,12 +719,22 @@ func nativeRun(spec *Spec, h *Harness, rf *replayFile, scratch string, timeout t
 	return outcomes, raw, nil
 }
 
-func outcomeMatches(kind, label, outcome, raw string) bool {
+func outcomeMatches(kind, label, assertLabel, outcome, raw string) bool {
 	switch kind {
 	case "assert":
-		return outcome == "assert "+label
+		return outcome == "assert "+assertLabel
 	case "panic":
-		return strings.HasPrefix(outcome, "panic ")
+		if strings.HasPrefix(outcome, "panic ") {
+			return true
+		}
+		// a panic in another goroutine kills the test binary before an outcome line is printed
+		if outcome == "" && strings.Contains(raw, "panic: ") {
+			if m := regexp.MustCompile(`\.(\w+) \(\w+\.go\)`).FindStringSubmatch(label); m != nil {
+				return strings.Contains(raw, "."+m[1]+"(")
+			}
+			return true
+		}
+		return false
 	case "fatal":
 		return strings.HasPrefix(outcome, "fatal") || (outcome == "" && (strings.Contains(raw, "exit status") || strings.Contains(raw, "FAIL")))
 	case "deadlock", "bound":
@@ -759,7 +769,7 @@ func confirmFinding(spec *Spec, h *Harness, f *finding, tier string, scratch str
 		b, _ := json.MarshalIndent(rf, "", " ")
 		os.WriteFile(p, b, 0o644)
 		f.replay = p
-		if err == nil && outcomeMatches(f.kind, f.label, out, raw) {
+		if err == nil && outcomeMatches(f.kind, f.sig, f.label, out, raw) {
 			f.confirm = true
 			return
 		}
